@@ -471,6 +471,12 @@ impl ObjectDesc {
         compute_md5: bool,
         config: TransferConfig,
     ) -> Result<Box<ObjectDesc>> {
+        if config.cenc != lct::Cenc::Null {
+            return Err(FluteError::new(
+                "Compressed object is not compatible with a stream",
+            ));
+        }
+
         let md5 = match compute_md5 {
             true => Some(stream.md5_base64()?),
             false => None,
